@@ -403,6 +403,18 @@ fn handle(v: &Value) -> Value {
             }
         }
         "remote_ser" | "remote_de" | "remote_schema" | "remote_admin" => remote_ops(op, v),
+        "remote_schema_multi" => {
+            // one schema document mentioning the handle with several type parameters
+            #[derive(schemars::JsonSchema)]
+            #[allow(dead_code)]
+            struct Holder {
+                first: Remote<'static, contract::Ctr>,
+                second: Remote<'static, dyn iface::Plain<Error = StdError>>,
+                third: Remote<'static, dyn iface_assoc::WithAssoc<Error = StdError, Item = Vec<u8>>>,
+                fourth: Option<Remote<'static, Empty>>,
+            }
+            json!({"schema": serde_json::to_value(&schemars::schema_for!(Holder)).unwrap_or(Value::Null)})
+        }
         "remote_exec" => remote_exec(v),
         "remote_query" => remote_query(v),
         "executor_builder" => {
